@@ -76,7 +76,7 @@ var msmThresholds = []int{49, 129, 321, 769, 1793, 4097, 9217, 20481}
 func genC09(t *rapid.T) c09Case {
 	c := c09Case{
 		API:        rapid.SampledFrom([]string{"element", "element", "bandersnatch", "multiscalar"}).Draw(t, "api"),
-		ScalarMode: rapid.SampledFrom([]string{"uniform", "uniform", "zero", "small", "mixsmall15", "mixsmall5", "recipes", "recipes", "limbs", "onehot"}).Draw(t, "scalars"),
+		ScalarMode: rapid.SampledFrom([]string{"uniform", "uniform", "zero", "small", "mixsmall15", "mixsmall5", "recipes", "recipes", "limbs", "onehot", "word", "word"}).Draw(t, "scalars"),
 		PointMode:  rapid.SampledFrom([]string{"pool", "pool", "pool", "dup", "identity", "rep"}).Draw(t, "points"),
 		Seed:       rapid.Uint64().Draw(t, "seed"),
 		Mont:       rapid.Bool().Draw(t, "mont"),
@@ -113,6 +113,17 @@ func (c c09Case) msmScalar(j int) *big.Int {
 	switch c.ScalarMode {
 	case "zero":
 		return new(big.Int)
+	case "word": // fits one 64-bit word, mostly with the top bits set
+		w := new(big.Int).And(h, new(big.Int).SetUint64(^uint64(0)))
+		switch new(big.Int).Rsh(h, 100).Uint64() % 5 {
+		case 0:
+			return new(big.Int).Lsh(big.NewInt(1), 63)
+		case 1:
+			return new(big.Int).SetUint64(^uint64(0))
+		case 2:
+			return w
+		}
+		return w.SetBit(w, 63, 1)
 	case "small":
 		return new(big.Int).And(h, big.NewInt(15))
 	case "mixsmall15", "mixsmall5":
@@ -199,7 +210,10 @@ func msmWatchdogFor(n, c int) time.Duration {
 	if n > 30000 || c >= 20 {
 		return 30 * time.Minute
 	}
-	return 3 * time.Minute
+	if n > 2000 {
+		return 3 * time.Minute
+	}
+	return time.Minute // normal cost: a few milliseconds
 }
 
 func evalC09(c c09Case, rec *hx.Rec) error {
@@ -275,7 +289,10 @@ func evalC09(c c09Case, rec *hx.Rec) error {
 		if deadlock {
 			return fmt.Errorf("MSM call did not return within %v and every go-ipa goroutine is parked (deadlock): %s", msmWatchdog, dump)
 		}
-		panic(hx.Inconclusive{Msg: "MSM call exceeded the watchdog without a deadlock signature: " + dump})
+		if hx.Responsive(5 * time.Second) {
+			return fmt.Errorf("MSM call %+v did not return within %v (more than 1000x its normal cost) while the process stayed responsive: %s", c, msmWatchdog, dump)
+		}
+		panic(hx.Inconclusive{Msg: "MSM call exceeded the watchdog on an unresponsive machine: " + dump})
 	}
 	if perr != nil {
 		return fmt.Errorf("MSM %+v: %w", c, perr)
@@ -335,7 +352,7 @@ func genC09Inner(t *rapid.T) c09InnerCase {
 		N:       rapid.SampledFrom([]int{1, 2, 3, 7, 64, 143, 0, 5, 33}).Draw(t, "n"),
 		Mont:    rapid.Bool().Draw(t, "mont"),
 		NbTasks: rapid.SampledFrom([]int{1, 2, 16, 64}).Draw(t, "nbtasks"),
-		Mode:    rapid.SampledFrom([]string{"recipes", "recipes", "uniform", "limbs", "small", "mixsmall15"}).Draw(t, "mode"),
+		Mode:    rapid.SampledFrom([]string{"recipes", "recipes", "uniform", "limbs", "small", "mixsmall15", "word"}).Draw(t, "mode"),
 		Seed:    rapid.Uint64().Draw(t, "seed"),
 	}
 }
@@ -368,7 +385,10 @@ func evalC09Inner(c c09InnerCase, rec *hx.Rec) error {
 		if deadlock {
 			return fmt.Errorf("internal MSM c=%d did not return within %v (deadlock): %s", c.C, msmWatchdog, dump)
 		}
-		panic(hx.Inconclusive{Msg: "internal MSM exceeded the watchdog: " + dump})
+		if hx.Responsive(5 * time.Second) {
+			return fmt.Errorf("internal MSM %+v did not return within %v while the process stayed responsive: %s", c, msmWatchdog, dump)
+		}
+		panic(hx.Inconclusive{Msg: "internal MSM exceeded the watchdog on an unresponsive machine: " + dump})
 	}
 	if perr != nil {
 		return fmt.Errorf("internal MSM %+v: %w", c, perr)
